@@ -1211,6 +1211,7 @@ def rsenc_exec(ctx, sizes=None):
         fo = T.Folder(f, env={pn[0]: [T.Token("d%d" % i) for i in range(nd)], pn[1]: v}, on_call=on_call, effects=True, local_calls=2)
         fo.max_iter = 5000
         fo.opaque_consts = True
+        fo.views = True
         try:
             res = fo.run(b["body"])
         except T.Trap as ex:
